@@ -57,7 +57,8 @@ def check_c15(sim, faulty):
                 dt = ent[2].devicetype
                 want = (who, 16, (EDT_HI << 8) | dt)
                 # a send-twice frame the hasseb driver writes twice counts once
-                if last_wire != want and last_wire != (who, bits, value):
+                repeat_ok = drv == "hasseb" and bool(ent[2].sendtwice) and last_wire == (who, bits, value)
+                if last_wire != want and not repeat_ok:
                     c = sim.callers[who] if isinstance(who, int) and who < len(sim.callers) else None
                     kind = c.kind if c else "send"
                     pr.append(("edt:%s:%s" % (drv, kind),
@@ -81,6 +82,18 @@ def check_c15(sim, faulty):
                 got = mine[0] if len(mine) == 1 else mine
                 if got != exp and not (alt is not None and got == alt):
                     pr.append(("unit:" + drv, "one contiguous unit %s" % (exp,), "units %s" % (mine,)))
+    # the serial drivers never retransmit: also in a faulty run (late / lost confirmation, cancellation) a caller
+    # puts no frame on the wire more often than its program contains it, and what it wrote is a prefix of its unit
+    if drv in ("luba", "sci"):
+        for c in sim.callers:
+            if not c.started:
+                continue
+            mine = [f for u in units if u[0] == c.tid for f in u[1]]
+            exp = expected_unit(sim, c)
+            alt = [f for f in exp if (f[1] >> 8) != EDT_HI or f[0] != 16] if c.kind == "send" else exp
+            if mine != exp[:len(mine)] and mine != alt[:len(mine)]:
+                pr.append(("unit-prefix:" + drv, "what a caller wrote is a prefix of its unit %s" % (exp,),
+                           "wrote %s" % (mine,)))
     # sequences are closed and the lock released whatever the exit
     for c in sim.callers:
         if c.kind == "seq" and c.done and c.seqwrap is not None and c.seqwrap.started and not c.seqwrap.closed:
